@@ -64,6 +64,9 @@ type Oblig struct {
 	output string
 	smtBytes int
 	extraFacts []T
+	xDefs   []Def  // definitions / facts / string identities created while evaluating the goal clause only
+	xFacts  []Fact
+	xStrIDs []T
 }
 
 type State struct {
@@ -135,6 +138,13 @@ type Engine struct {
 	hoisted map[ast.Expr]Value
 	quantVars map[types.Object]bool
 	strLens map[string]int64
+	frame *frame
+	gfacts []Fact
+	clauseMemo map[string]Value
+	entryState *State
+	allocSeq int
+	allocTerms map[string]int
+	epochFrames map[int]bool
 }
 
 type pkgCtx struct {
@@ -150,7 +160,7 @@ func newEngine(p *Program) *Engine {
 }
 
 func newEngine0(p *Program) *Engine {
-	e := &Engine{strLens: map[string]int64{}, heapSyms: map[string]T{}, heapKeySeen: map[string]bool{}, structIDs: map[*types.Struct]string{}, prog: p, declared: map[string]bool{}, typeIDs: map[string]int{}, strLits: map[string]T{},
+	e := &Engine{allocTerms: map[string]int{}, epochFrames: map[int]bool{}, strLens: map[string]int64{}, heapSyms: map[string]T{}, heapKeySeen: map[string]bool{}, structIDs: map[*types.Struct]string{}, prog: p, declared: map[string]bool{}, typeIDs: map[string]int{}, strLits: map[string]T{},
 		globals: map[types.Object]Value{}, assumptions: map[string]bool{}, funcsUnder: map[string]bool{}, uf: map[string]string{}}
 	return e
 }
@@ -209,11 +219,13 @@ func (e *Engine) assumeQ(st *State, fact T, origin string) {
 	e.assume(st, fact, origin)
 }
 
+// assumeGlobal records a permanent axiom (about cached symbols: literals, heap epochs, ghost functions);
+// it is part of every obligation and survives goal scopes.
 func (e *Engine) assumeGlobal(fact T, origin string) {
 	if fact.s == "true" {
 		return
 	}
-	e.facts = append(e.facts, Fact{fact, origin})
+	e.gfacts = append(e.gfacts, Fact{fact, origin})
 }
 
 func (e *Engine) slug(n ast.Node) string {
@@ -229,6 +241,50 @@ func normalizeSlug(s string) string {
 		s = s[:100] + "…"
 	}
 	return s
+}
+
+// scope marks the start of a goal-clause evaluation: everything created after it belongs to that goal only.
+type scopeMark struct{ ndefs, nfacts, nstr, nstrT, nheap, nobl int }
+
+func (e *Engine) beginScope() scopeMark {
+	return scopeMark{len(e.defs), len(e.facts), len(e.strIDs), len(e.strTerms), len(e.heapDecls), len(e.obligs)}
+}
+
+// endScope detaches what was created since the mark, attaches it to the obligations created in the scope,
+// and removes it from the global lists.
+func (e *Engine) endScope(m scopeMark) {
+	xd := append([]Def(nil), e.defs[m.ndefs:]...)
+	xf := append([]Fact(nil), e.facts[m.nfacts:]...)
+	xs := append([]T(nil), e.strIDs[m.nstr:]...)
+	for _, o := range e.obligs[m.nobl:] {
+		// the obligation's own prefix view ends somewhere inside the scope: keep exactly what it saw
+		nd, nf := o.ndefs-m.ndefs, o.nfacts-m.nfacts
+		if nd < 0 {
+			nd = 0
+		}
+		if nf < 0 {
+			nf = 0
+		}
+		if nd > len(xd) {
+			nd = len(xd)
+		}
+		if nf > len(xf) {
+			nf = len(xf)
+		}
+		o.xDefs = append(o.xDefs, xd[:nd]...)
+		o.xFacts = append(o.xFacts, xf[:nf]...)
+		o.xStrIDs = append(o.xStrIDs, xs...)
+		if o.ndefs > m.ndefs {
+			o.ndefs = m.ndefs
+		}
+		if o.nfacts > m.nfacts {
+			o.nfacts = m.nfacts
+		}
+	}
+	e.defs = e.defs[:m.ndefs]
+	e.facts = e.facts[:m.nfacts]
+	e.strIDs = e.strIDs[:m.nstr]
+	e.strTerms = e.strTerms[:m.nstrT]
 }
 
 // oblige records a proof obligation `pc => goal` and continues under the assumption that it holds.
@@ -497,7 +553,172 @@ func (e *Engine) bytesAreBytes(st *State, blk T) {
 func (e *Engine) allocBlock(st *State, n int) T {
 	a := st.alloc
 	st.alloc = e.name("alloc", Add(st.alloc, I(int64(n))))
+	e.allocSeq++
+	e.allocTerms[a.s] = e.allocSeq
 	return a
+}
+
+// ---------------------------------------------------------------------------------------
+// Frames.  A function under contract may write only memory allocated after its entry, plus what its
+// `modifies` clauses name.  Every write is checked (kind "frame"); in return, callers may rely on the
+// default "nothing else changes", and every loop head may assume that untouchable memory still has its
+// entry contents.
+
+type cellRange struct{ lo, hi T } // [lo, hi)
+
+type frame struct {
+	bound    T
+	blocks   []T
+	cells    []cellRange
+	maps     []T
+	all      bool
+	startSeq int
+}
+
+func (e *Engine) frameAllowsBlk(blk T) T {
+	f := e.frame
+	if f == nil || f.all {
+		return tTrue
+	}
+	if seq, ok := e.allocTerms[blk.s]; ok && seq > f.startSeq {
+		return tTrue
+	}
+	cs := []T{Ge(blk, f.bound)}
+	for _, b := range f.blocks {
+		cs = append(cs, Eq(blk, b))
+	}
+	return Or(cs...)
+}
+
+func (e *Engine) frameAllowsCell(addr T) T {
+	f := e.frame
+	if f == nil || f.all {
+		return tTrue
+	}
+	if seq, ok := e.allocTerms[addr.s]; ok && seq > f.startSeq {
+		return tTrue
+	}
+	cs := []T{Ge(addr, f.bound)}
+	for _, c := range f.cells {
+		cs = append(cs, And(Le(c.lo, addr), Lt(addr, c.hi)))
+	}
+	return Or(cs...)
+}
+
+func (e *Engine) frameAllowsMap(ref T) T {
+	f := e.frame
+	if f == nil || f.all {
+		return tTrue
+	}
+	if seq, ok := e.allocTerms[ref.s]; ok && seq > f.startSeq {
+		return tTrue
+	}
+	cs := []T{Ge(ref, f.bound)}
+	for _, m := range f.maps {
+		cs = append(cs, Eq(ref, m))
+	}
+	return Or(cs...)
+}
+
+// memWrite replaces the contents of block blk (frame-checked).
+func (e *Engine) memWrite(st *State, blk T, arr T, what string) {
+	if e.specMode == 0 {
+		if g := e.frameAllowsBlk(blk); g.s != "true" {
+			e.oblige(st, "frame", "write to "+what+" stays within the modifies frame", g, e.curPos, nil)
+		}
+	}
+	st.Mem = e.name("Mem", Sto(st.Mem, blk, arr))
+}
+
+func (e *Engine) checkCellWrite(st *State, addr T, what string) {
+	if e.specMode == 0 {
+		if g := e.frameAllowsCell(addr); g.s != "true" {
+			e.oblige(st, "frame", "write to "+what+" stays within the modifies frame", g, e.curPos, nil)
+		}
+	}
+}
+
+func (e *Engine) checkMapWrite(st *State, ref T, what string) {
+	if e.specMode == 0 {
+		if g := e.frameAllowsMap(ref); g.s != "true" {
+			e.oblige(st, "frame", "update of "+what+" stays within the modifies frame", g, e.curPos, nil)
+		}
+	}
+}
+
+// oldStaysOld: a reference read from memory outside the frame (hence unchanged since entry) points to
+// memory that already existed at entry (well-formed entry heap: stored references are allocated).
+func (e *Engine) oldStaysOld(st *State, loc T, isBlock bool, ref T) {
+	f := e.frame
+	if f == nil || f.all || e.quant > 0 || e.specMode > 0 && false {
+		return
+	}
+	outside := []T{Lt(loc, f.bound)}
+	if isBlock {
+		for _, x := range f.blocks {
+			outside = append(outside, Ne(loc, x))
+		}
+	} else {
+		for _, c := range f.cells {
+			outside = append(outside, Or(Lt(loc, c.lo), Ge(loc, c.hi)))
+		}
+	}
+	e.assume(st, Implies(And(outside...), Lt(ref, f.bound)), "typed memory: references stored in pre-existing memory point to pre-existing memory")
+}
+
+// assumeFrameAtHavoc: after forgetting the heap inside a function (loop head), memory outside the frame
+// still has its function-entry contents.
+func (e *Engine) assumeFrameMem(st *State) {
+	f := e.frame
+	if f == nil || f.all || e.entryState == nil {
+		return
+	}
+	e.nsym++
+	v := fmt.Sprintf("fb!%d", e.nsym)
+	b := T{v, SInt}
+	outside := []T{Lt(b, f.bound)}
+	for _, x := range f.blocks {
+		outside = append(outside, Ne(b, x))
+	}
+	e.assume(st, Forall([]string{v}, Implies(And(outside...), Eq(Sel(st.Mem, b), Sel(e.entryState.Mem, b)))), "frame: untouched blocks keep their entry contents")
+}
+
+func (e *Engine) assumeFrameMaps(st *State) {
+	f := e.frame
+	if f == nil || f.all || e.entryState == nil {
+		return
+	}
+	for _, k := range []string{"MapP", "MapV", "MapN"} {
+		cur, ok1 := st.ghost[k]
+		old, ok2 := e.entryState.ghost[k]
+		if !ok1 || !ok2 {
+			continue
+		}
+		e.nsym++
+		v := fmt.Sprintf("fm!%d", e.nsym)
+		r := T{v, SInt}
+		outside := []T{Lt(r, f.bound)}
+		for _, x := range f.maps {
+			outside = append(outside, Ne(r, x))
+		}
+		e.assume(st, Forall([]string{v}, Implies(And(outside...), Eq(Sel(cur, r), Sel(old, r)))), "frame: untouched maps keep their entry contents")
+	}
+}
+
+func (e *Engine) frameHeapAxiom(key string, sym T) {
+	f := e.frame
+	if f == nil || f.all || e.entryState == nil {
+		return
+	}
+	old := e.heapGet(e.entryState, key)
+	e.nsym++
+	v := fmt.Sprintf("fa!%d", e.nsym)
+	a := T{v, SInt}
+	outside := []T{Lt(a, f.bound)}
+	for _, c := range f.cells {
+		outside = append(outside, Or(Lt(a, c.lo), Ge(a, c.hi)))
+	}
+	e.assumeGlobal(Forall([]string{v}, Implies(And(outside...), Eq(Sel(sym, a), Sel(old, a)))), "frame: untouched cells keep their entry contents")
 }
 
 // ---------------------------------------------------------------------------------------
@@ -519,6 +740,9 @@ func (e *Engine) heapGet(st *State, key string) T {
 	e.heapDecls = append(e.heapDecls, Def{name: name, sort: SArr})
 	t := T{name, SArr}
 	e.heapSyms[ek] = t
+	if e.epochFrames[st.epoch] {
+		e.frameHeapAxiom(key, t)
+	}
 	if !e.heapKeySeen[key] {
 		e.heapKeySeen[key] = true
 		e.heapKeys = append(e.heapKeys, key)
@@ -625,6 +849,7 @@ func (e *Engine) loadAtK(st *State, addr T, t types.Type, key string) Value {
 			sz = e.cells(p.Elem())
 		}
 		e.assumeQ(st, And(Ge(c, I(0)), Le(Add(c, I(int64(sz))), st.alloc)), "typed memory: reference is allocated")
+		e.oldStaysOld(st, addr, false, c)
 		return RefV{c}
 	case *types.Slice:
 		h := e.heapGet(st, key)
@@ -634,12 +859,14 @@ func (e *Engine) loadAtK(st *State, addr T, t types.Type, key string) Value {
 		cp := e.nameQ("ld_cap", Sel(h, Add(addr, I(3))))
 		e.assumeQ(st, And(Ge(blk, I(0)), Lt(blk, st.alloc), Ge(off, I(0)), Ge(ln, I(0)), Le(ln, cp), Le(cp, I(1<<40)), Le(off, I(1<<40)),
 			Implies(Eq(blk, I(0)), And(Eq(ln, I(0)), Eq(cp, I(0))))), "typed memory: slice well-formed")
+		e.oldStaysOld(st, addr, false, blk)
 		return SliceV{blk, off, ln, cp}
 	case *types.Interface:
 		h := e.heapGet(st, key)
 		r := e.nameQ("ld_if", Sel(h, addr))
 		tag := e.nameQ("ld_tag", Sel(h, Add(addr, I(1))))
 		e.assumeQ(st, And(Ge(r, I(0)), Lt(r, st.alloc), Eq(Eq(r, I(0)), Eq(tag, I(0)))), "typed memory: interface well-formed")
+		e.oldStaysOld(st, addr, false, r)
 		return IfaceV{r, tag}
 	case *types.Array:
 		if e.specMode > 0 {
@@ -677,7 +904,7 @@ func (e *Engine) storeAtK(st *State, addr T, t types.Type, v Value, key string) 
 		if !ok {
 			return
 		}
-		st.Mem = e.name("Mem", Sto(st.Mem, addr, Sel(st.Mem, av.blk)))
+		e.memWrite(st, addr, Sel(st.Mem, av.blk), "an array")
 		return
 	case *types.Struct:
 		sv, ok := v.(StructV)
@@ -694,6 +921,7 @@ func (e *Engine) storeAtK(st *State, addr T, t types.Type, v Value, key string) 
 		return
 	}
 	cellsv := e.flatten(st, v, t)
+	e.checkCellWrite(st, addr, "a field or variable cell")
 	h := e.heapGet(st, key)
 	for i, c := range cellsv {
 		h = Sto(h, Add(addr, I(int64(i))), c)
@@ -719,7 +947,7 @@ func (e *Engine) strLit(s string) T {
 	}
 	e.nsym++
 	name := fmt.Sprintf("strlit!%d", e.nsym)
-	e.defs = append(e.defs, Def{name: name, sort: SInt})
+	e.heapDecls = append(e.heapDecls, Def{name: name, sort: SInt})
 	t := T{name, SInt}
 	e.strLits[s] = t
 	e.strIDs = append(e.strIDs, t)
